@@ -84,8 +84,7 @@ theorem fixAll_pw {ss l l' : List Stmt} {i : Nat} (h : fixAll ss i l = .ok l') :
   intro j s s' hs hs'
   obtain ⟨s'', h1, h2⟩ := hp j s hs
   rw [hs'] at h1; cases h1
-  rcases fixOne_out ss (i + j) s with h3 | h3 | ⟨t, h3, h4⟩ <;> rw [h3] at h2 <;> cases h2
-  exact h4
+  exact fixFit_same h2
 
 namespace Stages
 variable {fs : Files} {lines : List Str} {a : Assembly}
@@ -308,14 +307,30 @@ theorem finalSymTab_get {ss : List Stmt} {t t' : SymTab} (h : finalSymTab ss t =
         · rfl
     | _ => rw [hr] at h; cases h
 
-/-! ### pseudo operands are never rewritten -/
+/-! ### pseudo operands are rewritten only for FCB / FDB / RMB / ORG -/
 
-theorem resolveOperand_pseudo {o o' : Operand} {row t} (h : resolveOperand o row t = .ok o') :
-    (o.kind = .pseudo ∨ o'.kind = .pseudo) → o' = o := by
+/-- the directives whose operand `resolve_symbols` looks up (symbols, expressions, labels) -/
+def isDataRow (row : Gen.InstrRow) : Bool :=
+  row.mnemonic == "FCB" || row.mnemonic == "FDB" || row.mnemonic == "RMB" || row.mnemonic == "ORG"
+
+/-- `resolve_symbols` never turns an operand into a pseudo operand or a pseudo operand into another kind -/
+theorem resolveOperand_kind_pseudo {o o' : Operand} {row t} (h : resolveOperand o row t = .ok o') :
+    o'.kind = .pseudo ↔ o.kind = .pseudo := by
   unfold resolveOperand at h
   split at h
-  · cases h; intro _; rfl
-  · cases h; intro _; rfl
+  · cases h; rfl
+  · rename_i hk
+    have h2 : ∀ {x : R Value}, x.map (fun v => { o with value := v }) = .ok o' → o'.kind = o.kind := by
+      intro x hx; cases x <;> cases hx; rfl
+    have hk' : o'.kind = o.kind := by
+      split at h
+      · split at h
+        · cases h
+        · split at h
+          · exact h2 h
+          · cases h; rfl
+      · cases h; rfl
+    rw [hk']
   · rename_i hk
     have : ∀ {x : R Value}, x.map (fun v => { o with left := .val v }) = .ok o' → o'.kind = o.kind := by
       intro x hx; cases x <;> cases hx; rfl
@@ -325,7 +340,7 @@ theorem resolveOperand_pseudo {o o' : Operand} {row t} (h : resolveOperand o row
         · exact this h
         · cases h; rfl
       · cases h; rfl
-    intro hh; rw [hk', hk] at hh; simp at hh
+    rw [hk']
   · rename_i hk
     have h1 : ∀ {x : R Value}, x.map (fun v => { o with left := .val v }) = .ok o' → o'.kind = o.kind := by
       intro x hx; cases x <;> cases hx; rfl
@@ -339,11 +354,9 @@ theorem resolveOperand_pseudo {o o' : Operand} {row t} (h : resolveOperand o row
           · exact h1 h
           · cases h; rfl
         · cases h
-    intro hh; rw [hk', hk] at hh; simp at hh
+    rw [hk']
   · rename_i hk1 hk2 hk3 hk4
-    intro hh
-    exfalso
-    have hop : o.kind ≠ .pseudo := fun he => hk1 he
+    have hop : o.kind ≠ .pseudo := fun he => hk2 he
     have : o'.kind ≠ .pseudo := by
       split at h
       · cases h
@@ -353,42 +366,77 @@ theorem resolveOperand_pseudo {o o' : Operand} {row t} (h : resolveOperand o row
           have h3 : ∀ {x : R Value} {k} , k ≠ OpKind.pseudo → x.map (fun nv => { o with kind := k, value := nv }) = .ok o' → o'.kind ≠ .pseudo := by
             intro x k hk hx; cases x <;> cases hx; exact hk
           split at h
-          · cases h
-          · split at h
-            · exact h3 (by decide) h
-            · cases h; simp
           · cases h; simp
+          · split at h
+            · cases h
+            · split at h
+              · exact h3 (by decide) h
+              · cases h; simp
+            · split at h <;> (cases h; simp)
+            · cases h; simp
+    exact ⟨fun h => absurd h this, fun h => absurd h hop⟩
+
+/-- a pseudo operand of a directive other than FCB / FDB / RMB / ORG is not rewritten -/
+theorem resolveOperand_pseudo {o o' : Operand} {row t} (h : resolveOperand o row t = .ok o')
+    (hrow : isDataRow row = false) : (o.kind = .pseudo ∨ o'.kind = .pseudo) → o' = o := by
+  intro hh
+  have hk : o.kind = .pseudo := by
     rcases hh with hh | hh
-    · exact hop hh
-    · exact this hh
+    · exact hh
+    · exact (resolveOperand_kind_pseudo h).1 hh
+  unfold resolveOperand at h
+  rw [hk] at h
+  dsimp only at h
+  unfold isDataRow at hrow
+  rw [if_neg (by rw [hrow]; simp)] at h
+  cases h; rfl
 
-/-- if either statement has a pseudo operand, the operands are equal -/
-def OpRel (s s' : Stmt) : Prop := (s.operand.kind = .pseudo ∨ s'.operand.kind = .pseudo) → s'.operand = s.operand
+/-- a pseudo operand of FCB / FDB / RMB / ORG: only the value is rewritten (a symbol or an expression is looked up) -/
+theorem resolveOperand_pseudo_data {o o' : Operand} {row t} (h : resolveOperand o row t = .ok o')
+    (hk : o.kind = .pseudo) : ∃ v, o' = { o with value := v } := by
+  unfold resolveOperand at h
+  rw [hk] at h
+  dsimp only at h
+  split at h
+  · split at h
+    · cases h
+    · split at h
+      · cases hr : o.value.resolve t with
+        | error e => rw [hr] at h; cases h
+        | ok v => rw [hr] at h; cases h; exact ⟨v, by simp [hk]⟩
+      · cases h; exact ⟨o.value, rfl⟩
+  · cases h; exact ⟨o.value, rfl⟩
 
-theorem OpRel.of_eq {s s' : Stmt} (h : s'.operand = s.operand) : OpRel s s' := fun _ => h
+/-- same row; and outside FCB / FDB / RMB / ORG, if either statement has a pseudo operand, the operands are equal -/
+def OpRel (s s' : Stmt) : Prop :=
+  s'.row = s.row ∧ (isDataRow s.row = false → (s.operand.kind = .pseudo ∨ s'.operand.kind = .pseudo) → s'.operand = s.operand)
+
+theorem OpRel.of_eq {s s' : Stmt} (hr : s'.row = s.row) (h : s'.operand = s.operand) : OpRel s s' := ⟨hr, fun _ _ => h⟩
 
 theorem OpRel.trans {a b c : Stmt} (h1 : OpRel a b) (h2 : OpRel b c) : OpRel a c := by
-  intro hh
+  refine ⟨h2.1.trans h1.1, ?_⟩
+  intro hd hh
+  have hd' : isDataRow b.row = false := by rw [h1.1]; exact hd
   rcases hh with hh | hh
-  · have e1 := h1 (Or.inl hh)
-    have e2 := h2 (Or.inl (by rw [e1]; exact hh))
+  · have e1 := h1.2 hd (Or.inl hh)
+    have e2 := h2.2 hd' (Or.inl (by rw [e1]; exact hh))
     rw [e2, e1]
-  · have e2 := h2 (Or.inr hh)
-    have e1 := h1 (Or.inr (by rw [← e2]; exact hh))
+  · have e2 := h2.2 hd' (Or.inr hh)
+    have e1 := h1.2 hd (Or.inr (by rw [← e2]; exact hh))
     rw [e2, e1]
 
 theorem Stages.op05 {fs : Files} {lines : List Str} {a : Assembly} (st : Stages fs lines a) :
     PW OpRel st.ss0 a.stmts := by
   have h01 : PW OpRel st.ss0 st.ss1 :=
-    (resolveAll_pw st.hresolve).mono (by rintro s s' ⟨o, ho, rfl⟩; exact resolveOperand_pseudo ho)
+    (resolveAll_pw st.hresolve).mono (by rintro s s' ⟨o, ho, rfl⟩; exact ⟨rfl, fun hd => resolveOperand_pseudo ho hd⟩)
   have h12 : PW OpRel st.ss1 st.ss2 :=
-    (translateAll_pw st.htranslate).mono (by rintro s s' ⟨o, _, rfl⟩; exact .of_eq rfl)
+    (translateAll_pw st.htranslate).mono (by rintro s s' ⟨o, _, rfl⟩; exact .of_eq rfl rfl)
   have h23 : PW OpRel st.ss2 st.ss3 :=
-    (pcrLoop_pw _ _ st.hpcr).mono (by rintro s s' ⟨_, _, _, _, _, rfl⟩; exact .of_eq rfl)
+    (pcrLoop_pw _ _ st.hpcr).mono (by rintro s s' ⟨_, _, _, _, _, rfl⟩; exact .of_eq rfl rfl)
   have h34 : PW OpRel st.ss3 st.ss4 :=
-    (assignAddrs_pw st.haddr).mono (by rintro s s' ⟨_, rfl⟩; exact .of_eq rfl)
+    (assignAddrs_pw st.haddr).mono (by rintro s s' ⟨_, rfl⟩; exact .of_eq rfl rfl)
   have h45 : PW OpRel st.ss4 a.stmts :=
-    (fixAll_pw st.hfix).mono (by rintro s s' ⟨_, rfl⟩; exact .of_eq rfl)
+    (fixAll_pw st.hfix).mono (by rintro s s' ⟨_, rfl⟩; exact .of_eq rfl rfl)
   exact (((h01.trans h12 (fun _ _ _ => OpRel.trans)).trans h23 (fun _ _ _ => OpRel.trans)).trans h34
     (fun _ _ _ => OpRel.trans)).trans h45 (fun _ _ _ => OpRel.trans)
 
